@@ -37,6 +37,8 @@ func c06Alphabet() []c06Msg {
 		{name: "cancelled", method: "notifications/cancelled", params: `{"requestId":99}`, notif: true, kind: "cancelled"},
 		{name: "tools/list", method: "tools/list", params: `{}`, kind: "feature"},
 		{name: "tools/call", method: "tools/call", params: `{"name":"t","arguments":{}}`, kind: "feature-tool"},
+		// a method the application registered itself (AddReceivingCustomMethod) is behind the gate like any other
+		{name: "acme/echo (custom method)", method: "acme/echo", params: `{"text":"x"}`, kind: "feature-custom"},
 		{name: "tools/call(modern)", method: "tools/call", params: `{"name":"t","arguments":{},` + c06ModernMeta + `}`, kind: "modern-tool"},
 		{name: "tools/list(modern,no caps)", method: "tools/list", params: `{"_meta":{"io.modelcontextprotocol/protocolVersion":"2026-07-28"}}`, kind: "modern-invalid"},
 		{name: "tools/list(modern,2099)", method: "tools/list", params: `{"_meta":{"io.modelcontextprotocol/protocolVersion":"2099-01-01","io.modelcontextprotocol/clientCapabilities":{}}}`, kind: "modern-unsupported"},
@@ -51,6 +53,16 @@ func c06Alphabet() []c06Msg {
 		{name: "initialize(modern)", method: "initialize", params: `{"protocolVersion":"2026-07-28","capabilities":{},"clientInfo":{"name":"c","version":"1"},` + c06ModernMeta + `}`, kind: "removed"},
 		{name: "ping(modern)", method: "ping", params: `{` + c06ModernMeta + `}`, kind: "removed"},
 	}
+}
+
+type c06EchoParams struct {
+	ParamsBase
+	Text string `json:"text"`
+}
+
+type c06EchoResult struct {
+	ResultBase
+	Text string `json:"text"`
 }
 
 type c06Wire struct {
@@ -102,6 +114,12 @@ func c06RunInBubble(msgs []c06Msg, hist []int, legacyOnly bool) verifx.SearchRes
 	s.AddResource(&Resource{URI: "file:///r", Name: "r"}, func(context.Context, *ReadResourceRequest) (*ReadResourceResult, error) {
 		return &ReadResourceResult{}, nil
 	})
+	if err := AddReceivingCustomMethod(s, "acme/echo", func(ctx context.Context, ss *ServerSession, p *c06EchoParams) (*c06EchoResult, error) {
+		counts["custom"]++
+		return &c06EchoResult{Text: p.Text}, nil
+	}); err != nil {
+		return bad("setup", "AddReceivingCustomMethod: %v", err)
+	}
 	s.AddReceivingMiddleware(func(next MethodHandler) MethodHandler {
 		return func(ctx context.Context, method string, req Request) (Result, error) {
 			reached = append(reached, method)
@@ -186,7 +204,7 @@ func c06RunInBubble(msgs []c06Msg, hist []int, legacyOnly bool) verifx.SearchRes
 			code = resp.Error.Code
 		}
 		delta := func(k string) int { return counts[k] - before[k] }
-		userHandlers := delta("tool") + delta("subscribe") + delta("roots") + delta("initialized")
+		userHandlers := delta("tool") + delta("subscribe") + delta("roots") + delta("initialized") + delta("custom")
 		served := len(newReached) > 0
 		where := fmt.Sprintf("step %d (%s) in state inited=%v initialized=%v", step, msg.name, m.inited, m.initd)
 		stateUnchanged := func() *verifx.SearchResult {
@@ -273,13 +291,17 @@ func c06RunInBubble(msgs []c06Msg, hist []int, legacyOnly bool) verifx.SearchRes
 				r2 := bad("cancelled-ran-handlers", "%s: ran user handlers", where)
 				r = &r2
 			}
-		case "feature", "feature-tool", "feature-setlevel", "feature-subscribe", "feature-roots":
+		case "feature", "feature-tool", "feature-setlevel", "feature-subscribe", "feature-roots", "feature-custom":
 			if !m.inited {
 				r = mustReject(0)
 			} else {
 				r = mustServe()
 				if r == nil && msg.kind == "feature-setlevel" {
 					m.level = "debug"
+				}
+				if r == nil && msg.kind == "feature-custom" && delta("custom") != 1 {
+					r2 := bad("custom-method-not-run", "%s: served but the custom method's handler ran %d times", where, delta("custom"))
+					r = &r2
 				}
 				if r == nil && msg.kind == "feature-tool" && delta("tool") != 1 {
 					r2 := bad("tool-not-run", "%s: served but the tool handler ran %d times", where, delta("tool"))
